@@ -273,6 +273,17 @@ def happend(H, tot, data):
     return z3.Lambda([t], z3.If(t < tot, H[t], data.seq.arr[t - tot]))
 
 
+def extract_add(model):
+    """counterexample of ReplayBuffer.add -> a history that reaches the same capacity / cursor / fill level, then the same batch width"""
+    from pyvc.main import mget, mnum
+    N, cur, tot, n = (mnum(mget(model, k)) for k in ("self.max_size", "self._cursor", "self.gtot", "data.len"))
+    if None in (N, cur, tot, n) or not (1 <= N <= 64 and 0 <= tot <= 256 and 1 <= n <= N):
+        return None
+    N, tot, n = int(N), int(tot), int(n)
+    widths = [1] * tot + [n, 1]           # tot single adds put the cursor at tot mod N, then the offending width, then one more add
+    return {"N": N, "widths": widths, "clear_at": None}
+
+
 def rb_contracts(P, verify, cls="ReplayBuffer", shape="RB"):
     """Contracts of ReplayBuffer.add / sample / clear / __len__ (verified in C09; used modularly by C10/C11)."""
     q = RB + cls + "."
@@ -294,7 +305,7 @@ def rb_contracts(P, verify, cls="ReplayBuffer", shape="RB"):
                         "self._storage is not None"],
                witness={"self.max_size": 4, "self._cursor": 0, "self._size": 0, "self.gtot": 0, "self._storage": None,
                         "data": [0, 0]},
-               replay="c09:rb_add")
+               replay={"adapter": "c09:rb_add", "extract": extract_add})
     P.specns.update(dict(sampled_ok=sampled_ok, stored_set=stored_set))
     P.contract(RB + "ReplayBuffer.sample", verify=verify,
                params={"self": "obj:" + shape, "batch_size": "int", "return_idx": "bool"},
